@@ -57,11 +57,19 @@ static void pairs(Ctx& c, uint64_t index, Rng& r) {
     bool up1 = r.coin(), up2 = r.coin();
     unsigned pos = (unsigned)r.below(3); bool key = r.chance(1, 4);
     std::string esc = "\\u" + hex4(hi, up1) + "\\u" + hex4(lo, up2);
+    uint32_t cp = 0x10000 + ((hi - 0xD800) << 10) + (lo - 0xDC00);
+    std::string e = ref_utf8(cp);
+    // sequences in one string: the pair followed (directly or after plain characters) by BMP escapes, by another pair, or preceded by one
+    switch (r.below(6)) {
+      case 0: { uint32_t b = (uint32_t)r.pick({0x41u, 0xE9u, 0x7FFu, 0x800u, 0xFFFDu, 0xD7FFu, 0xE000u}); esc += "\\u" + hex4(b, up1); e += ref_utf8(b); break; }
+      case 1: { uint32_t b = (uint32_t)r.range(0x20, 0xD7FF); esc += "mid\\u" + hex4(b, up2); e += "mid" + ref_utf8(b); break; }
+      case 2: { uint32_t b = (uint32_t)r.range(0xE000, 0xFFFF); esc = "\\u" + hex4(b, up2) + esc + "\\u" + hex4(b, up1); e = ref_utf8(b) + e + ref_utf8(b); break; }
+      case 3: { esc += esc; e += e; esc += "\\u0031"; e += "1"; break; }
+      default: break;
+    }
     std::string body = pos == 0 ? esc + "z" : pos == 1 ? "a" + esc + "z" : "a" + esc;
     std::string text = key ? "{'" + body + "':null}" : "\"" + body + "\"";
     std::string got; AJ::DeserializationError err;
-    uint32_t cp = 0x10000 + ((hi - 0xD800) << 10) + (lo - 0xDC00);
-    std::string e = ref_utf8(cp);
     std::string expect = pos == 0 ? e + "z" : pos == 1 ? "a" + e + "z" : "a" + e;
     c.count("escape_parses");
     if (!parse_str(text, key, got, err)) { c.violation("pair-rejected", std::string("returned ") + err_name(err), "text=" + text); continue; }
